@@ -98,7 +98,7 @@ def parseTy (s : String) : Option Ty :=
 
 def parseForm (s : String) : Option Form :=
   [("vecL", Form.vecL), ("vecR", .vecR), ("listL", .listL), ("listR", .listR), ("arrL", .arrL), ("stdArrL", .stdArrL),
-   ("genL", .genL), ("ptr", .ptr), ("vecIt", .vecIt), ("listIt", .listIt), ("moveIt", .moveIt), ("revIt", .revIt), ("deqIt", .deqIt), ("inIt", .inIt)].lookup s
+   ("genL", .genL), ("ptr", .ptr), ("vecIt", .vecIt), ("listIt", .listIt), ("moveIt", .moveIt), ("revIt", .revIt), ("deqIt", .deqIt), ("inIt", .inIt), ("strideIt", .strideIt)].lookup s
 
 def vidx (s : String) : Nat := (s.drop 1).toString.toNat!
 
